@@ -601,6 +601,7 @@ func c13Main(args []string) {
 	base := fs.String("dir", "/verif/.work/C13/runs", "scratch")
 	seed := fs.Int64("seed", 1, "seed")
 	histories := fs.Int("histories", 2, "number of seeded histories")
+	stormRounds := fs.Int("storm", 12, "rounds of the status poll storm")
 	inprocBin := fs.String("inproc-bin", "", "receptor-inproc binary (histories with odd index use it and its in-process work type)")
 	nops := fs.Int("ops", 14, "operations per client")
 	clients := fs.Int("clients", 3, "clients per history")
@@ -626,6 +627,15 @@ func c13Main(args []string) {
 			mu.Unlock()
 		}(h)
 	}
+	wg.Add(1)
+	go func() {
+		defer wg.Done()
+		if *inprocBin != "" {
+			pollStorm(res, *inprocBin, *base, *seed, true, *stormRounds, 6)
+		} else {
+			pollStorm(res, *bin, *base, *seed, false, *stormRounds, 4)
+		}
+	}()
 	wg.Add(1)
 	go func() {
 		defer wg.Done()
